@@ -1224,7 +1224,8 @@ def r16_3_decisions(ctx):
         gt = {f.alpha.atom(g, p) for g, p in f.guards(rs)}
         none_given = (ap, False) in gt
         if none_given:
-            r.check(('%s.is_scalar()' % W, False) in gt and S.raise_class(rs) == 'RecognitionError', 'require_scalar(): raises iff not '
+            r.check((('%s.is_scalar()' % W, False) in gt or ('isinstance(self.yaml_node, yaml.ScalarNode)', False) in gt)
+                    and S.raise_class(rs) == 'RecognitionError', 'require_scalar(): raises iff not '
                     'node.is_scalar()', f.key('untyped'), f.loc(rs), 'require_scalar() raises under %s' % sorted(gt))
         else:
             # after a whole loop over the types in which a match returns
